@@ -20,7 +20,7 @@ exec(open(os.path.join(VERIF, "mutants", "specs.py")).read())
 
 
 def sh(cmd, **kw):
-    return subprocess.run(cmd, shell=True, stdout=subprocess.PIPE, stderr=subprocess.STDOUT, text=True, **kw)
+    return subprocess.run(cmd, shell=True, stdout=subprocess.PIPE, stderr=subprocess.STDOUT, text=True, errors="replace", **kw)
 
 
 def main():
